@@ -107,6 +107,10 @@ type Check struct {
 	// After runs once after a clean in-process batch (e.g. the race-detector phase in child
 	// processes). It may add coverage keys and report violations found outside the process.
 	After func(opt Options, cov map[string]interface{}) ([]ExtViolation, error)
+	// AfterFirst runs the After phase BEFORE the in-process batch (C19: hidden shared state in
+	// the library would crash a multi-worker batch with a Go fatal error before it could be
+	// reported; the child processes report it as a data race).
+	AfterFirst bool
 }
 
 // ExtViolation is a violation found by a child process for run RunIndex.
@@ -506,6 +510,19 @@ func RunBatch(opt Options) int {
 	}
 	fmt.Printf("visim check %s tier=%s seed=%d runs=%d workers=%d\n", opt.ID, opt.Tier, opt.Seed, n, workers)
 
+	extCov := map[string]interface{}{}
+	var ext []ExtViolation
+	if ch.After != nil && ch.AfterFirst {
+		var err error
+		ext, err = ch.After(opt, extCov)
+		if err != nil {
+			fmt.Fprintf(os.Stderr, "INFRASTRUCTURE ERROR: %v\n", err)
+			return 2
+		}
+		if len(ext) > 0 {
+			n = 1 // the batch only serves to write the evidence; the violation is reported below
+		}
+	}
 	a := &agg{nontriv: map[uint64]struct{}{}, states: map[uint64]struct{}{}, faults: map[string]int{}, probes: map[string]int{}, counts: map[string]int{}, hashes: map[uint64]uint64{}}
 	for _, k := range ch.FaultKinds {
 		a.faults[k] = 0
@@ -643,9 +660,7 @@ func RunBatch(opt Options) int {
 	}
 
 	// phase run outside this process (race detector children)
-	extCov := map[string]interface{}{}
-	var ext []ExtViolation
-	if len(unknown) == 0 && ch.After != nil {
+	if len(unknown) == 0 && ch.After != nil && !ch.AfterFirst {
 		var err error
 		ext, err = ch.After(opt, extCov)
 		if err != nil {
